@@ -229,7 +229,7 @@ def main():
            ("unknown-module-ref", "/no.such.module/fn > y", "refuse", False),
            ("ok-plain", "fa > y", "accept", False), ("ok-tag", "fa > y:T", "refuse", False), ("ok-ctx", "fa(x) > y", "accept", False),
            ("ok-wrap", "fa(!x, !!y)", "accept", False), ("ok-override", "fa > y", "accept", True),
-           ("ok-loopvar-unknown", "fa > #loop_zz", "refuse", False)]
+           ("ok-loopvar-unknown", "fa > #loop_zz", "refuse", False), ("list-selector", "fa, fa", "refuse", False)]
     for what, text, expect, ovr in SEL:
         try:
             p = probing(text, env=env, overridable=ovr)
